@@ -164,6 +164,7 @@ type Exec struct {
 	hasArmRet   bool
 	mergeAborts int
 	freshSlots  map[*Value]bool // slots allocated inside speculative arms
+	tokens      map[string]Value // text tokens of symbolic scalars (serial.go)
 
 	// results
 	Asserts    []AssertRec
